@@ -80,7 +80,7 @@ pub fn information_item_type(type_ref: &str, evaluator: &ItemDefinitionTypeEvalu
 }
 
 ///
-fn item_definition_type(item_definition: &ItemDefinition) -> Result<ItemDefinitionType> {
+pub fn item_definition_type(item_definition: &ItemDefinition) -> Result<ItemDefinitionType> {
   let feel_type = if let Some(type_ref) = item_definition.type_ref() {
     type_ref_to_feel_type(type_ref)
   } else {
